@@ -258,7 +258,7 @@ MUTANTS = [
   "    let risk_engine = match RiskEngine::new(marginfi_account, remaining_ais) {\n        Ok(r) => r,\n        Err(_) => {\n            marginfi_account.unset_flag(ACCOUNT_IN_RECEIVERSHIP, false);\n            liq_record.liquidation_receiver = Pubkey::default();\n            return Ok((I80F48::ZERO, 0.0, I80F48::ZERO, 0.0));\n        }\n    };\n\n    let (post_health,", ["C10"]),
  ("c04-observation-bank-key-unchecked", M+"state/marginfi_account.rs",
   "                check_eq!(\n                    balance.bank_pk,\n                    *bank_ai.key,\n                    MarginfiError::InvalidBankAccount\n                );",
-  "                let _ = balance.bank_pk;", ["C04", "C08", "C05", "C07"]),
+  "                let _ = balance.bank_pk;", ["C04", "C08", "C05", "C07", "C10"]),
 ]
 
 def sh(cmd, **kw):
